@@ -262,7 +262,9 @@ no list of earlier proposals) as a measurement of the checks as they stood after
 reported straight away (33 by the property's own check), 4 were not reported and 1 only on some runs (see C12-w7m1). The eighth wave (`*-w8m*`) was told every earlier proposal and asked to strike out the code sites those touch and
 to make three one-token / one-line changes at sites nobody had touched. A ninth wave (`*-w9m*`) repeated the eighth's instructions with the longer list of taken sites; its reports were read before its
 changes were tried, and the checks were extended first where a report named something no check asked (so 'caught as built' is not
-claimed for that wave: the last column says what was added). %d of the %d changes were not reported by their own property's check as it stood when they
+claimed for that wave: the last column says what was added). A tenth wave (`*-w10m*`) repeated the very first, naive prompt once more on the final
+checks, as a closing measurement: all 40 of its changes were reported as built, every one by its own property's quick check on the first
+run (no check was touched for it). %d of the %d changes were not reported by their own property's check as it stood when they
 were first tried (%d of those were reported by another property's check straight away); all are now. Four
 proposals were dropped, not kept as seeded changes: four (C02, C04, C10 in the fifth wave, C10 in the sixth)
 only alter what a FAILED update leaves in the main database file, which the statements leave open (C10 only
